@@ -29,7 +29,8 @@ def rebuild(st):
 
 
 OBSERVED = ["ptm1", "ptm2", "ptm1", "ptm2", "dpspr_zero", "hs", "hrms", "tm01", "tm02", "dm", "dspr", "dp", "dpm", "tp", "oned", "momf", "uss", "crsd",
-            "stats", "stats_limits", "stats_limits", "smooth", "interp", "rotate", "ptm3", "ptm4", "to_energy", "swe", "hmax", "split", "reconstruct"]
+            "stats", "stats_limits", "stats_limits", "smooth", "interp", "rotate", "ptm3", "ptm4", "to_energy", "swe", "hmax", "split", "reconstruct",
+            "ptm3", "to_swan", "to_octopus", "to_json"]
 
 
 def observe(obj, obs):
@@ -62,6 +63,27 @@ def observe(obj, obs):
         r = partition_and_reconstruct(ds_, parts=2)
     elif name == "stats_limits":
         r = acc.stats(["hs", "tm01", "dm"], **kw)
+    elif name in ("to_swan", "to_octopus", "to_json"):
+        # the result of a writer is the file: its bytes (objects without a time axis are refused by some writers -
+        # then both processes must refuse alike)
+        import os
+        import shutil
+        import tempfile
+        ds_ = obj if isinstance(obj, xr.Dataset) else obj.to_dataset(name="efth")
+        d_ = tempfile.mkdtemp(prefix="vf-c18-")
+        try:
+            p_ = os.path.join(d_, "out")
+            getattr(ds_.spec, name)(p_)
+            with open(p_, "rb") as fh_:
+                raw_ = fh_.read()
+            if name == "to_json":
+                # the document, not its spelling: the order of the keys of a JSON object carries no meaning (xarray lists
+                # the dimensions in the order the object happened to acquire them)
+                import json
+                raw_ = json.dumps(json.loads(raw_.decode()), sort_keys=True).encode()
+            r = xr.DataArray(np.frombuffer(raw_, dtype=np.uint8).copy(), dims=["byte"])
+        finally:
+            shutil.rmtree(d_, ignore_errors=True)
     elif name in ("ptm1", "ptm2"):
         da = obj["efth"] if isinstance(obj, xr.Dataset) else obj
         r = getattr(da.spec.partition, name)(xr.DataArray(14.0), xr.DataArray(200.0), xr.DataArray(30.0), swells=2)
@@ -74,7 +96,7 @@ def observe(obj, obs):
     elif name in ("ptm3", "ptm4"):
         da = obj["efth"] if isinstance(obj, xr.Dataset) else obj
         if name == "ptm3":
-            r = da.spec.partition.ptm3(parts=kw["parts"])
+            r = da.spec.partition.ptm3(parts=kw["parts"], ihmax=kw.get("ihmax", 100))
         else:
             r = da.spec.partition.ptm4(xr.DataArray(kw["wspd"]), xr.DataArray(kw["wdir"]), xr.DataArray(kw["dpt"]))
     else:
